@@ -712,6 +712,12 @@ class AttackGraph():
                     attacker.name)
 
 
+        if any(attacker is existing for existing in self.attackers):
+            raise ValueError(
+                f'Attacker "{attacker.name}" is already part of the attack '
+                'graph.'
+            )
+
         # The id is only written to the attacker once nothing can be refused
         # any more, a refused attacker keeps the id it carries.
         new_id = attacker_id if attacker_id is not None \
